@@ -14,7 +14,9 @@ def alphabet(rng, k=None, kind=None):
     list: 0-based, 1-based, gapped, negative, mixed-sign, large."""
     if k is None:
         k = rng.randint(2, 6)
-    kind = kind or rng.choice(['zero', 'zero', 'one', 'gapped', 'negative', 'mixed', 'large', 'minus1'])
+    kind = kind or rng.choice(['zero', 'zero', 'one', 'gapped', 'negative', 'mixed', 'large', 'minus1', 'imitate'])
+    if kind == 'imitate' and k < 2:
+        kind = 'gapped'
     if kind == 'zero':
         labs = list(range(k))
     elif kind == 'one':
@@ -25,6 +27,24 @@ def alphabet(rng, k=None, kind=None):
         labs = sorted(rng.sample(range(-4 * k - 3, 0), k))
     elif kind == 'mixed':
         labs = sorted(rng.sample(range(-2 * k - 2, 2 * k + 3), k))
+    elif kind == 'imitate':
+        # alphabets that pass a PARTIAL test for 0..n-1 / 1..n: the same maximum, minimum, sum or length
+        v = rng.choice(['max0', 'max0', 'max1', 'min0', 'min1', 'sum0'])
+        if v in ('max0', 'max1'):
+            top = k - 1 if v == 'max0' else k
+            m = rng.randint(1, k - 1)                                   # labels below the imitated range
+            low = rng.sample(range(-k - 3, 0 if v == 'max0' else 1), m)
+            labs = sorted(low + rng.sample(range(top - (k - 1), top), k - m - 1) + [top])
+        elif v in ('min0', 'min1'):
+            b = 0 if v == 'min0' else 1
+            labs = sorted([b] + rng.sample(range(b + 1, b + 3 * k + 2), k - 1))
+            if labs[-1] == b + k - 1:
+                labs[-1] += rng.randint(1, 3)
+        else:
+            d = rng.randint(1, 3)
+            labs = list(range(k))
+            labs[0] -= d
+            labs[-1] += d
     elif kind == 'minus1':
         labs = sorted(set([-1] + rng.sample(range(-3, 2 * k + 2), k - 1)))
         while len(labs) < k:
@@ -67,6 +87,16 @@ def trajset(rng, labs=None, ntraj=None, lag=None, big=False, equal=False, minlen
     if equal:
         n = max(minlen, length(rng, lag, big))
         return [traj(rng, labs, n) for _ in range(ntraj)]
+    if ntraj >= 3 and rng.random() < 0.15:
+        # ragged, but the total equals ntraj times the FIRST length (looks 'equally long' to a test on the sum)
+        n0 = max(minlen + 1, rng.randint(2, 12))
+        rest = [n0] * (ntraj - 1)
+        for _ in range(rng.randint(1, 6)):
+            i, j = rng.sample(range(ntraj - 1), 2) if ntraj > 2 else (0, 0)
+            if i != j and rest[i] > minlen:
+                rest[i] -= 1
+                rest[j] += 1
+        return [traj(rng, labs, n) for n in [n0] + rest]
     return [traj(rng, labs, max(minlen, length(rng, lag, big))) for _ in range(ntraj)]
 
 
@@ -98,8 +128,28 @@ def narrow_set(rng, style=None):
     constructor keeps the input dtype for those), trajectories longer than 127 / 255 frames in
     int8 / uint8, or more than 128 states spread over arrays of different widths (narrow first).
     Returns (trajs, dtypes, tag)."""
-    style = style or rng.choice(['long-int8', 'long-int8', 'many-mixed', 'many-unsigned'])
+    style = style or rng.choice(['long-int8', 'long-int8', 'many-mixed', 'many-unsigned', 'full-range', 'narrow-many'])
     base = rng.choice([0, 1])
+    if style == 'full-range':
+        # a narrow signed type used over its whole range: negative minimum, span beyond the type's maximum
+        dt = rng.choice(['int8', 'int8', 'int16'])
+        hi = 127 if dt == 'int8' else 32767
+        k = rng.randint(3, 5)
+        labs = sorted(set([rng.randint(-hi - 1, -hi // 2), rng.randint(hi // 2 + 1, hi)]
+                          + [rng.randint(-hi // 2, hi // 2) for _ in range(k - 2)]))
+        trajs = [traj(rng, labs, rng.randint(20, 60), sticky=0.5) for _ in range(rng.choice([1, 2, 3]))]
+        trajs[0] = trajs[0] + labs + labs[::-1]
+        return trajs, [dt] * len(trajs), style
+    if style == 'narrow-many':
+        # ONE narrow type for all trajectories and enough contiguous states that i * n + j leaves the type
+        dt = rng.choice(['uint8', 'uint8', 'int8', 'int16'])
+        k = {'uint8': rng.randint(17, 60), 'int8': rng.randint(12, 40), 'int16': rng.randint(182, 200)}[dt]
+        labs = list(range(base, base + k))
+        order = labs[:]
+        rng.shuffle(order)
+        t1 = order + traj(rng, labs, rng.randint(200, 500), sticky=0.3) + order[::-1]
+        trajs = [t1] + [traj(rng, labs, rng.randint(30, 200), sticky=0.3) for _ in range(rng.choice([0, 0, 1, 2]))]
+        return trajs, [dt] * len(trajs), style
     if style == 'long-int8':
         k = rng.randint(2, 4)
         labs = list(range(base, base + k))
@@ -191,8 +241,11 @@ def with_layouts(rng, cases, p_alt=0.15, p_lumped=0.0):
                 case['layout'] = 'lumped'
             if 'iter' in case and rng.random() < 0.08:
                 case['itertype'] = rng.choice(['np', 'int'])          # the mode flag as NumPy bool / 0-1 integer
-            if 'lag' in case and rng.random() < 0.08 and -100 < case['lag'] < 100:
-                case['lagtype'] = rng.choice(['int8', 'int16', 'int32', 'int64'])     # numpy integer scalars as lag time
+            longest = max([len(t) for t in case.get('trajs') or [[]] if isinstance(t, list)] or [0])
+            if 'lag' in case and rng.random() < (0.3 if longest > 250 else 0.08) and -100 < case['lag'] < 100:
+                # numpy integer scalars as lag time; unsigned ones too (negating them wraps: 254 for uint8(2))
+                signed = ['int8', 'int16', 'int32', 'int64']
+                case['lagtype'] = rng.choice(signed + ['uint8', 'uint8', 'uint16', 'uint32', 'uint64'] if case['lag'] > 0 else signed)
         yield case
 
 
